@@ -179,6 +179,131 @@ def scan_keeps(it, prog, addr_a, key, key_bytes):
     return z3.BoolVal(len(out) == 1)
 
 
+# ------------------------------------------------------------------------------------------- k2/k3: overlay algebra
+def worker_k2(job):
+    from checks import histlib as HL
+    from mirsym import ledger as L
+    from mirsym.models_std import drain
+    parents, content = job
+    prog = PROG
+    rep = H.Report(PROP, 'quick')
+    cands = Cands()
+    st = Stats()
+    hist = HL.History(parents, content)
+    ts = hist.ts
+    seen = set()
+
+    def scenario(it):
+        w = HL.World(it, prog, hist)
+        w.push_all()
+        orc = HL.Oracle(hist, w)
+        du = prog.src.find_adt(['types', 'Utxo'])
+        leaf = ts.leaves[it.choose(len(ts.leaves), 'tip')]
+        addr = HL.ADDRS[it.choose(len(HL.ADDRS), 'address')]
+        path = ts.path(leaf)
+
+        def view(offset):
+            ac = Cell(it.call("AddressUtxoSet::<'_>::new", [L.address(addr), w.usref, w.ubref]))
+            for b in path:
+                it.call("AddressUtxoSet::<'_>::apply_block", [Ref(ac), Ref(Cell(btc.bh(b)))])
+            return drain(it, it.call("AddressUtxoSet::<'_>::into_iter", [ac.v, offset]))
+        seq = view(none())
+        got = [(L.op_key(u.fields[du.fields.index('outpoint')].v), u.fields[du.fields.index('value')].v.t, u.fields[du.fields.index('height')].v.t) for u in seq]
+        exp = orc.address_view(leaf, addr)
+        info = dict(history=hist.descriptor(), tip=leaf, address=addr)
+        mdl = lambda: it.model_ if it.feasible() else None
+        seen.add(len(exp))
+        if sorted(g[0] for g in got) != sorted(e[0] for e in exp):
+            cands.add(kernel='k2', role='utxo-set-differs-from-ledger', model=mdl(), got=[g[0] for g in got], expected=[e[0] for e in exp], **info)
+            return
+        if len(set(g[0] for g in got)) != len(got):
+            cands.add(kernel='k2', role='utxo-reported-twice', model=mdl(), got=[g[0] for g in got], **info)
+            return
+        gv = {g[0]: g for g in got}
+        for e in exp:
+            g = gv[e[0]]
+            m = check_unsat(it, rep, zterm(g[1]) != zterm(e[1]))
+            if m is not None:
+                cands.add(kernel='k2', role='value-differs-from-ledger', model=m, outpoint=list(e[0]), **info)
+                return
+            m = check_unsat(it, rep, zterm(g[2]) != w.sh.t + e[2])
+            if m is not None:
+                cands.add(kernel='k2', role='height-is-not-that-of-the-containing-block-on-this-chain', model=m, outpoint=list(e[0]),
+                          expected_height_offset=e[2], **info)
+                return
+        # order: height descending, then outpoint (heights are stable_height + constant, so the order is concrete)
+        if [g[0] for g in got] != [e[0] for e in exp]:
+            cands.add(kernel='k2', role='order-is-not-height-descending-then-outpoint', model=mdl(), got=[g[0] for g in got], expected=[e[0] for e in exp], **info)
+            return
+        # continuation from every element (pagination offset): exactly the suffix
+        for k in range(1, len(seq)):
+            off = some(H.mk_struct(prog, 'types::Utxo', height=SInt(got[k][2], 'u32'), outpoint=L.outpoint(*got[k][0]), value=SInt(0, 'u64')))
+            sub = view(off)
+            subk = [L.op_key(u.fields[du.fields.index('outpoint')].v) for u in sub]
+            if subk != [g[0] for g in got[k:]]:
+                cands.add(kernel='k2', role='continuation-from-offset-is-not-the-suffix', model=mdl(), offset_index=k, got=subk, expected=[g[0] for g in got[k:]], **info)
+                return
+
+    explore(prog, scenario, stats=st, on_panic=lambda it, e: cands.add(
+        kernel='k2', role='trap', model=it.model_ if it.feasible() else None, history=hist.descriptor(), msg=str(e)[:300]))
+    rep.add_stats(st, 'k2:overlay')
+    rep.cov['shapes'] += 1
+    if any(n >= 2 for n in seen):
+        rep.cov['witnesses'] += 1
+    if sum(parents) % 2 == 0:
+        rep.sample(dict(kernel='k2', parents=parents, transactions_per_block=content, paths=st.paths, view_sizes=sorted(seen)))
+    return (rep.cov, cands.items, rep.inconclusive)
+
+
+def native_views(desc):
+    from checks.c20 import native_history
+    return native_history(desc, 100)
+
+
+def judge_native_views(desc, res, want_heights=True):
+    """get_utxos for both addresses after every arrival vs the python ledger with the native amounts (1000*txid + vout)"""
+    from checks import histlib as HL
+    parents, content = desc
+    hist = HL.History(parents, {int(k): v for k, v in content.items()})
+    ts = hist.ts
+
+    class W:
+        val = {}
+    for b in range(1, ts.n + 1):
+        for (tid, ins, kinds) in hist.txs_of(b):
+            for oi in range(len(kinds)):
+                W.val[(tid, oi)] = 1000 * tid + oi
+    for (t, v, kind, below) in HL.STABLE:
+        W.val[(t, v)] = 1000 * t + v
+    orc = HL.Oracle(hist, W)
+    problems = []
+    if res.get('trap'):
+        return ['trap: %s' % res['trap']]
+    for stp in res.get('steps', []):
+        for a in ('A', 'B'):
+            ans = stp[a]
+            if 'err' in ans or not isinstance(ans.get('tip'), int):
+                problems.append('get_utxos(%s) after block %s: %s' % (a, stp['after'], ans))
+                continue
+            tip = ans['tip']
+            sh = stp['stable_height']
+            exp = orc.address_view(tip, a)
+            got = [((u[0], u[1]), u[2], u[3]) for u in ans['utxos']]
+            expc = [(e[0], e[1], sh + e[2]) for e in exp]
+            if not want_heights:
+                got = [(g[0], g[1]) for g in got]
+                expc = [(e[0], e[1]) for e in expc]
+            # within one height the real order is that of the transaction hashes, which the labels do not reflect:
+            # compare as sets and demand non-increasing heights
+            hs = [u[3] for u in ans['utxos']]
+            if sorted(got) != sorted(expc) or any(hs[i] < hs[i + 1] for i in range(len(hs) - 1)):
+                problems.append('get_utxos(%s) at tip %s after block %s: %s, ledger %s' % (a, tip, stp['after'], got, expc))
+            bal = stp['balance_' + a]
+            if bal != sum(e[1] for e in exp):
+                problems.append('get_balance(%s) after block %s: %s, ledger %s' % (a, stp['after'], bal, sum(e[1] for e in exp)))
+    return problems
+
+
 # ------------------------------------------------------------------------------------------- native side
 def native_prefix_pair():
     victim = bech32.p2wpkh('bcrt', bytes(range(20)))
@@ -207,8 +332,30 @@ def confirm(cand, known):
                     return 'known:' + k['id'], doc
             return 'violation', doc
         return 'not-reproduced', doc
+    if cand['kernel'] == 'k2' and cand.get('history'):
+        res = native_views(cand['history'])
+        probs = judge_native_views(cand['history'], res)
+        if probs:
+            doc['problems'] = probs[:3]
+            only_heights = not judge_native_views(cand['history'], res, want_heights=False)
+            for k in known:
+                if k['id'] == 'C01-same-tx-on-two-forks-first-height' and k.get('status') == 'known' and only_heights \
+                        and cand['role'] == 'height-is-not-that-of-the-containing-block-on-this-chain' and shared_tx_on_forks(cand['history']):
+                    return 'known:' + k['id'], doc
+            return 'violation', doc
+        return 'not-reproduced', doc
     doc['problems'].append(cand['role'])
     return 'violation', doc
+
+
+def shared_tx_on_forks(desc):
+    """the listed defect needs one transaction id included in two blocks of the tree"""
+    parents, content = desc
+    seen = {}
+    for b, txs in content.items():
+        for t in txs:
+            seen.setdefault(t, []).append(b)
+    return any(len(v) > 1 for v in seen.values())
 
 
 def translator_validation(rep):
@@ -241,6 +388,23 @@ def main():
     jobs = [(la, lb, off) for la in range(1, LA + 1) for lb in range(1, LA + 2) for off in (0, 1)]
     for part in parallel(jobs, worker_k1):
         merge_partial(rep, cands, part)
+    from checks import histlib as HL
+    r = C.rng()
+    N = 3 if tier == 'quick' else 4
+    hjobs = [(p, c) for p, c in HL.HANDCRAFTED]
+    for parents in shapes_upto(N):
+        if parents:
+            hjobs += [(h.parents, h.content) for h in HL.valid_histories(parents, r, 3 if tier == 'quick' else 8)]
+    for part in parallel(hjobs, worker_k2):
+        merge_partial(rep, cands, part)
+    rep.cov['bounds']['histories'] = '%d (4 handcrafted incl. one transaction on two forks at different heights + seeded samples per tree shape up to %d blocks); every leaf x both addresses x every continuation offset' % (len(hjobs), N)
+    for p, c in hjobs[:8]:
+        res = native_views((p, c))
+        probs = judge_native_views((p, c), res, want_heights=not shared_tx_on_forks((p, c)))
+        if not probs and res.get('steps'):
+            rep.cov['traces_validated_against_impl'] += len(res['steps'])
+        else:
+            rep.inconclusive = 'native views for history %s: %s' % ((p, c), str(probs)[:300])
     translator_validation(rep)
     settle(rep, PROP, cands, confirm, H.load_known(PROP), cap=3, describe=lambda d: str(d.get('problems'))[:400])
     return rep.finish()
